@@ -47,7 +47,7 @@ func (l *Limiter) Account(bytes int) bool {
 	if l == nil {
 		return true
 	}
-	now := time.Now().UnixNano()
+	now := nowNano()
 	l.mu.Lock()
 	defer l.mu.Unlock()
 	if l.packets != nil {
